@@ -37,6 +37,12 @@ THEOREMS = [
     "O2P.Store.runSpec_hashes_irrelevant",
     "O2P.Store.inv_empty",
     "O2P.Store.faithful_empty",
+    "O2P.Store.renameNodes_idem",
+    "O2P.Store.reingest_fixpoint",
+    "O2P.Store.noingest_fixpoint",
+    "O2P.Store.rerun_same_answer",
+    "O2P.Store.history_same_answer",
+    "O2P.Store.first_run_sameNA",
 ]
 T0 = 1_700_000_000_000_000_000
 MIN = 60 * 10**9
@@ -264,9 +270,9 @@ def _task(case: dict[str, Any]) -> tuple[list[dict[str, Any]], dict[bool, dict[s
 def run(ctx: Ctx) -> None:
     for p in translate(["Consts"]):
         ctx.broken_ties.append("translator: " + p)
-    ctx.prove(["O2P.Props.C15"], THEOREMS)
+    ctx.prove(["O2P.Props.C15Full"], THEOREMS)
     if ctx.tier == "thorough":
-        ctx.leanchecker(["O2P.Props.C15"])
+        ctx.leanchecker(["O2P.Props.C15Full"])
     quick = ctx.tier == "quick"
     # make sure the package is imported in this (parent) process before anything forks
     import tel2puml.otel_to_pv.otel_to_pv  # noqa: F401
@@ -355,9 +361,9 @@ def run(ctx: Ctx) -> None:
     ctx.assumptions += [
         "SQLite, SQLAlchemy sessions and the file system are modelled, not verified; separate processes share nothing "
         "but the database file",
-        "the universal 'same answer' clause (rerun_same_answer_full in O2P/Props/C15.lean) is a stated Prop, not yet a "
-        "theorem: it is decided on the histories run here; completion (no IntegrityError from ingestion or cleaning in "
-        "any history), window equality, hash-row irrelevance and batch independence are theorems",
+        "history_same_answer assumes parents local to their trace in the input and, for runs that do not ingest, every "
+        "input span inside the widest window (real nanosecond timestamps, buffers of minutes); the generated data sets "
+        "satisfy both, the theorem's non-vacuity example checks them on a concrete input",
         "which member of a shape class is selected is SQLite's choice: runs with unique graphs are compared on shapes",
     ]
 
